@@ -101,3 +101,17 @@ package staticfiles
 //@   modifies ghost:sent
 //@   ensures [error_status_means_nothing_was_sent] result0 >= 400 ==> sent == old(sent)
 //@   ensures [otherwise_exactly_one_response] result0 < 400 ==> sent == old(sent) + 1
+
+//@ unit pure_helpers frames=on props=C02,C18 verify_pure=on filter=`staticfiles\.calculateEtag$`
+//@ // what serve_file assumes of calculateEtag, proved: it writes nothing (the ETag is a function of size and modification time)
+//@ extern strconv.FormatInt
+//@   pure
+//@ extern invoke:(io/fs.FileInfo).ModTime
+//@   pure
+//@ extern invoke:(io/fs.FileInfo).Size
+//@   pure
+//@ extern (time.Time).Unix
+//@   pure
+//@ func calculateEtag
+//@   pure
+//@   requires d != nil
